@@ -1,12 +1,85 @@
 // Harness: reads case lines on stdin, executes the REAL rml_rtmp / rml_amf0 code on each, prints
 // "<case>\t<observation>" per line.  See DESIGN.md section 5.
+use std::alloc::{GlobalAlloc, Layout, System};
 use std::io::{self, BufRead, Write};
 use std::panic;
+use std::sync::atomic::{AtomicU64, AtomicUsize, Ordering};
+use std::sync::{Arc, Mutex};
+
+// counting allocator: current / peak live bytes, hard cap (a runaway allocation aborts the process,
+// which the engine reports with the case that was running)
+pub struct Counting;
+pub static CURRENT: AtomicUsize = AtomicUsize::new(0);
+pub static PEAK: AtomicUsize = AtomicUsize::new(0);
+pub static LARGEST: AtomicUsize = AtomicUsize::new(0);
+const ALLOC_CAP: usize = 6 << 30;
+
+unsafe impl GlobalAlloc for Counting {
+    unsafe fn alloc(&self, layout: Layout) -> *mut u8 {
+        let sz = layout.size();
+        let cur = CURRENT.fetch_add(sz, Ordering::Relaxed) + sz;
+        if cur > PEAK.load(Ordering::Relaxed) {
+            PEAK.store(cur, Ordering::Relaxed);
+        }
+        if sz > LARGEST.load(Ordering::Relaxed) {
+            LARGEST.store(sz, Ordering::Relaxed);
+        }
+        if cur > ALLOC_CAP || sz > ALLOC_CAP {
+            let _ = io::stderr().write_all(b"HARNESS: allocation cap exceeded\n");
+            std::process::abort();
+        }
+        System.alloc(layout)
+    }
+    unsafe fn dealloc(&self, ptr: *mut u8, layout: Layout) {
+        CURRENT.fetch_sub(layout.size(), Ordering::Relaxed);
+        System.dealloc(ptr, layout)
+    }
+    unsafe fn realloc(&self, ptr: *mut u8, layout: Layout, new_size: usize) -> *mut u8 {
+        let old = layout.size();
+        if new_size > old {
+            let cur = CURRENT.fetch_add(new_size - old, Ordering::Relaxed) + (new_size - old);
+            if cur > PEAK.load(Ordering::Relaxed) {
+                PEAK.store(cur, Ordering::Relaxed);
+            }
+            if new_size > LARGEST.load(Ordering::Relaxed) {
+                LARGEST.store(new_size, Ordering::Relaxed);
+            }
+            if cur > ALLOC_CAP {
+                let _ = io::stderr().write_all(b"HARNESS: allocation cap exceeded\n");
+                std::process::abort();
+            }
+        } else {
+            CURRENT.fetch_sub(old - new_size, Ordering::Relaxed);
+        }
+        System.realloc(ptr, layout, new_size)
+    }
+}
+
+#[global_allocator]
+static GLOBAL: Counting = Counting;
+
+/// measure the peak of live bytes above the level at entry, and the largest single request, during f
+pub fn measure<T, F: FnOnce() -> T>(f: F) -> (T, usize, usize) {
+    let base = CURRENT.load(Ordering::Relaxed);
+    PEAK.store(base, Ordering::Relaxed);
+    LARGEST.store(0, Ordering::Relaxed);
+    let r = f();
+    let peak = PEAK.load(Ordering::Relaxed).saturating_sub(base);
+    (r, peak, LARGEST.load(Ordering::Relaxed))
+}
+
+static CASE_STARTED_MS: AtomicU64 = AtomicU64::new(0);
+const CASE_TIMEOUT_MS: u64 = 20_000;
+
+fn now_ms() -> u64 {
+    std::time::SystemTime::now().duration_since(std::time::UNIX_EPOCH).map(|d| d.as_millis() as u64).unwrap_or(0)
+}
 
 mod util;
 mod c_time;
 mod c_amf0;
 mod c_chunk;
+mod c_msg;
 
 fn run_case(line: &str) -> String {
     let mut it = line.splitn(2, ' ');
@@ -16,6 +89,7 @@ fn run_case(line: &str) -> String {
         "time" => c_time::run(rest),
         "amf0" => c_amf0::run(rest),
         "chunk" => c_chunk::run(rest),
+        "msg" => c_msg::run(rest),
         _ => format!("HARNESS-UNKNOWN-COMPONENT {}", comp),
     }
 }
@@ -24,8 +98,21 @@ fn main() {
     // panics are observations, not noise
     panic::set_hook(Box::new(|_| {}));
     let stdin = io::stdin();
-    let stdout = io::stdout();
-    let mut out = io::BufWriter::new(stdout.lock());
+    let current_case: Arc<Mutex<String>> = Arc::new(Mutex::new(String::new()));
+    {
+        // watchdog: a case that does not return is an observation (HANG), then the process ends
+        let cc = current_case.clone();
+        std::thread::spawn(move || loop {
+            std::thread::sleep(std::time::Duration::from_millis(500));
+            let started = CASE_STARTED_MS.load(Ordering::Relaxed);
+            if started != 0 && now_ms() > started + CASE_TIMEOUT_MS {
+                let case = cc.lock().map(|c| c.clone()).unwrap_or_default();
+                println!("{}\tHANG", case);
+                std::process::exit(3);
+            }
+        });
+    }
+    let mut out = io::stdout();
     for line in stdin.lock().lines() {
         let line = line.expect("read");
         let line = line.trim_end();
@@ -33,6 +120,10 @@ fn main() {
             continue;
         }
         let l2 = line.to_string();
+        if let Ok(mut c) = current_case.lock() {
+            *c = l2.clone();
+        }
+        CASE_STARTED_MS.store(now_ms(), Ordering::Relaxed);
         let obs = match panic::catch_unwind(move || run_case(&l2)) {
             Ok(s) => s,
             Err(e) => {
@@ -46,6 +137,12 @@ fn main() {
                 format!("PANIC {}", util::classify_panic(&msg))
             }
         };
-        writeln!(out, "{}\t{}", line, obs).unwrap();
+        CASE_STARTED_MS.store(0, Ordering::Relaxed);
+        let mut text = String::with_capacity(line.len() + obs.len() + 2);
+        text.push_str(line);
+        text.push('\t');
+        text.push_str(&obs);
+        text.push('\n');
+        out.write_all(text.as_bytes()).unwrap();
     }
 }
